@@ -1445,4 +1445,78 @@ theorem runLoop_terminates (g : Graph) (d : Nat → Nat) (hr : Ranked g d) (hsym
   exact ⟨r, hr', runLoop_of_runLoopO g w (bound g) s evs r hr' fuel hf⟩
 
 
+
+/-! ## decidable forms of the static hypotheses -/
+
+/-- length of the longest chain of parents above `n`, explored to depth `fuel` -/
+def depthAux (g : Graph) : Nat → Nat → Nat
+  | 0, _ => 0
+  | fuel + 1, n => ((g.node n).setup.map (fun e => depthAux g fuel e.1 + 1)).foldl max 0
+
+/-- exact on acyclic graphs -/
+def depth (g : Graph) (n : Nat) : Nat := depthAux g g.nodes.length n
+
+/-- acyclicity check: the depth strictly decreases along every setup edge -/
+def rankedB (g : Graph) : Bool :=
+  (List.range g.nodes.length).all (fun n => (g.node n).setup.all (fun e => decide (depth g e.1 < depth g n)))
+
+theorem foldl_max_le (l : List Nat) (a k : Nat) (ha : a ≤ k) (h : ∀ x ∈ l, x ≤ k) : l.foldl max a ≤ k := by
+  induction l generalizing a with
+  | nil => exact ha
+  | cons b r ih =>
+    simp only [List.foldl_cons]
+    exact ih _ (Nat.max_le.mpr ⟨ha, h b List.mem_cons_self⟩) (fun x hx => h x (List.mem_cons_of_mem _ hx))
+
+theorem depthAux_le (g : Graph) (k n : Nat) : depthAux g k n ≤ k := by
+  induction k generalizing n with
+  | zero => simp [depthAux]
+  | succ k ih =>
+    unfold depthAux
+    apply foldl_max_le _ _ _ (Nat.zero_le _)
+    intro x hx
+    obtain ⟨e, _, rfl⟩ := List.mem_map.mp hx
+    have := ih e.1
+    omega
+
+theorem rankedB_sound {g : Graph} (h : rankedB g = true) : Ranked g (depth g) := by
+  refine ⟨fun n p hp => ?_, fun n => depthAux_le g _ n⟩
+  have hn : n < g.nodes.length := lt_of_setup_mem g n p hp
+  unfold rankedB at h
+  rw [List.all_eq_true] at h
+  have h1 := h n (List.mem_range.mpr hn)
+  rw [List.all_eq_true] at h1
+  obtain ⟨e, he, rfl⟩ := List.mem_map.mp hp
+  simpa using h1 e he
+
+/-- pre-parsed graphs: the only flat node is the shared root -/
+def noFlatB (g : Graph) : Bool := g.nodes.all (fun nd => !nd.flat || nd.sharedRoot)
+
+theorem explored_of_noFlat {g : Graph} (h : noFlatB g = true) (s : State) : Explored g s := by
+  rw [explored_iff]
+  intro n hn hf
+  unfold noFlatB at h
+  rw [List.all_eq_true] at h
+  have hnd : g.node n = g.nodes[n] := by
+    unfold Graph.node
+    rw [List.getD_eq_getElem?_getD, List.getElem?_eq_getElem hn]; rfl
+  have h1 := h (g.node n) (by rw [hnd]; exact List.getElem_mem hn)
+  rw [hf] at h1
+  simp only [Bool.not_true, Bool.false_or] at h1
+  obtain ⟨su, cl, hv⟩ := vis_node g s n
+  unfold isUnrolled
+  rw [hv]
+  simp only [h1, if_true]
+
+theorem clsOK_init (g : Graph) (ncls : Nat) (store : List (String × List (String × String))) (hidden : List Nat)
+    (h : ∀ n, n < g.nodes.length → (g.node n).cls < ncls) : ClsOK g (initState g ncls store hidden) := by
+  intro n hn
+  simp only [initState, List.length_map, List.length_range]
+  exact h n hn
+
+/-- a worker at the root is in a good state -/
+theorem good_at_root (g : Graph) (d : Nat → Nat) (w : Nat) (s : State) (hn : s.nodes.length = g.nodes.length)
+    (hc : ClsOK g s) (he : Explored g s) (hp : (s.wd w).path = [g.root]) : Good g d w s :=
+  ⟨hn, hc, he, by rw [hp]; exact walk_root g d g.root⟩
+
+
 end I2N.Trav.Term
